@@ -289,12 +289,17 @@ deriving Repr, Inhabited
 def modeRule (P : Prog) (s : LSt) (op : Op) : Option String :=
   match op with
   | .conn _ _ sv _ _ =>
+    -- (the budget also stops the growth of slot lists: beyond it nothing is connected any more)
+    if s.steps > P.maxsteps then some "budget" else
     if P.owners then
       match aget s.S sv with
       | some v => if v.slot.empty then some "emptyslot" else none
       | none => none
     else none
-  | .mkS _ _ f | .setS _ f | .connfn _ _ f _ => if !P.owners && f.isOwner then some "noowner" else none
+  | .connfn _ _ f _ =>
+    if s.steps > P.maxsteps then some "budget" else
+    if !P.owners && f.isOwner then some "noowner" else none
+  | .mkS _ _ f | .setS _ f => if !P.owners && f.isOwner then some "noowner" else none
   | _ => none
 
 /-- the operations that run no user code: one step of the interpreter without recursion -/
